@@ -722,7 +722,9 @@ class Unit:
             sig, n0 = re.subn(pat, rep, sig, flags=re.S)
             body2, n = re.subn(pat, rep, body, flags=re.S)
             n += n0
-            if n == 0 or (count != '+' and n != int(count)):
+            if count == '*':
+                pass
+            elif n == 0 or (count != '+' and n != int(count)):
                 raise ExtractError(f'{name}: rewrite {rid} /{pat}/ matched {n} times (expected {count})')
             cnt.hit(rid, n)
             body = body2
@@ -862,17 +864,23 @@ def build_unit(name, repo, verif, outdir):
     u.finish_clause_ranges()
     os.makedirs(outdir, exist_ok=True)
     path = os.path.join(outdir, name + ('_probe' if os.environ.get('VERIF_PROBE') else '') + '.rs')
-    open(path, 'w').write(text)
+    tmp = path + '.%d.tmp' % os.getpid()
+    open(tmp, 'w').write(text)
+    os.replace(tmp, path)            # atomic: a concurrent check never reads a half-written unit
     meta = dict(unit=name, path=path, clauses=[c.to_json() for c in u.clauses], functions=u.functions,
                 rewrites={k: dict(v) for k, v in u.rewrites.items()}, lemmas=u.lemmas, sources=sorted(u.sources))
-    json.dump(meta, open(os.path.join(outdir, name + ('_probe' if os.environ.get('VERIF_PROBE') else '') + '.meta.json'), 'w'), indent=1)
+    mp = os.path.join(outdir, name + ('_probe' if os.environ.get('VERIF_PROBE') else '') + '.meta.json')
+    json.dump(meta, open(mp + '.%d.tmp' % os.getpid(), 'w'), indent=1)
+    os.replace(mp + '.%d.tmp' % os.getpid(), mp)
     return path, meta
 
 if __name__ == '__main__':
     repo = os.environ.get('VERIF_REPO', '/repo')
     verif = os.path.dirname(os.path.dirname(os.path.abspath(__file__)))
     try:
-        p, meta = build_unit(sys.argv[1], repo, verif, os.path.join(verif, 'build'))
+        import hashlib
+        bd = os.path.join(verif, 'build') if os.path.realpath(repo) == '/repo' else os.path.join(verif, 'build', 'alt-' + hashlib.sha256(os.path.realpath(repo).encode()).hexdigest()[:10])
+        p, meta = build_unit(sys.argv[1], repo, verif, bd)
         print(p, len(meta['clauses']), 'clauses')
     except ExtractError as e:
         print('EXTRACT-ERROR', e); sys.exit(2)
